@@ -7,6 +7,7 @@ import (
 	"math/rand"
 	"runtime"
 	"strings"
+	"sync/atomic"
 
 	"go.opentelemetry.io/collector/component"
 	"go.opentelemetry.io/collector/connector"
@@ -56,6 +57,10 @@ type ExporterConfig struct {
 	Keep      bool `mapstructure:"keep"`       // retain payload and bytes at call time
 	ReadAsync bool `mapstructure:"read_async"` // re-read the payload from a goroutine after Consume returned
 	Fail      bool `mapstructure:"fail"`       // Consume returns an error (after recording the delivery)
+	// FailFirst: the very first Consume call of the instance is refused (Delivery.Refused; the refused
+	// payload is neither kept nor touched afterwards — a consumer that rejects data must let go of it),
+	// later calls succeed: what a retrying receiver meets.
+	FailFirst bool `mapstructure:"fail_first"`
 }
 
 // ConnectorConfig configures the kit connectors.
@@ -129,6 +134,40 @@ func (in *Injector) Tag() string { return string(in.Signal) + "/" + in.ID }
 func (in *Injector) Inject(ctx context.Context, rng *rand.Rand) (Payload, error) {
 	p := NewPayload(in.Signal, Msg{Tag: in.Tag()}, rng)
 	return p, in.Next.Consume(ctx, p)
+}
+
+// SendOptions describe how a receiver hands one payload to its consumer.
+type SendOptions struct {
+	// MarkReadOnly: the receiver marks its payload read-only before sending (it keeps the payload,
+	// e.g. to send it elsewhere too); nobody may change it.
+	MarkReadOnly bool
+	// Resend: after a downstream error the receiver sends the VERY SAME payload object again, up to
+	// this many times (consumerretry style).
+	Resend int
+}
+
+// Attempt is one send of a payload: the trail the payload carried when it was sent (empty for the
+// first attempt unless an earlier attempt's mutating pipeline worked on the original) and the result.
+type Attempt struct {
+	Trail []string
+	Err   error
+}
+
+// SendPayload hands p to the receiver's consumer as the options say and returns the attempts.
+func (in *Injector) SendPayload(ctx context.Context, p Payload, o SendOptions) []Attempt {
+	if o.MarkReadOnly {
+		p.MarkReadOnly()
+	}
+	var out []Attempt
+	for i := 0; i <= o.Resend; i++ {
+		a := Attempt{Trail: p.Msg().Trail}
+		a.Err = in.Next.Consume(ctx, p)
+		out = append(out, a)
+		if a.Err == nil {
+			break
+		}
+	}
+	return out
 }
 
 type receiverC struct{ comp }
@@ -218,7 +257,8 @@ func (e *Env) processorFactory() processor.Factory {
 
 type exporterC struct {
 	comp
-	cfg *ExporterConfig
+	cfg   *ExporterConfig
+	calls atomic.Int64
 }
 
 func (x *exporterC) Capabilities() consumer.Capabilities {
@@ -228,6 +268,11 @@ func (x *exporterC) Capabilities() consumer.Capabilities {
 func (x *exporterC) consume(_ context.Context, pl Payload) error {
 	m := pl.Msg()
 	d := &Delivery{Exporter: x.key, Inst: x.inst, Tag: m.Tag, Trail: m.Trail, ReadOnly: pl.IsReadOnly(), Items: pl.Items()}
+	if x.calls.Add(1) == 1 && x.cfg.FailFirst {
+		d.Refused = true
+		x.env.deliver(d)
+		return fmt.Errorf("kit: %s refuses (first attempt)", x.key)
+	}
 	if x.cfg.Keep {
 		d.AtCall = pl.Marshal()
 		d.Kept, d.HasKept = pl, true
